@@ -13,6 +13,8 @@ import (
 	"sort"
 	"strconv"
 	"strings"
+	"sync"
+	"time"
 )
 
 // toks is one integer-encoded line.
@@ -102,9 +104,62 @@ type violation struct {
 }
 
 func newMeta(stream string, seed int64) *meta {
-	return &meta{Stream: stream, Seed: seed, Dist: map[string]int64{}, distinct: map[string]bool{}}
+	m := &meta{Stream: stream, Seed: seed, Dist: map[string]int64{}, distinct: map[string]bool{}}
+	curMeta = m
+	return m
 }
-func (m *meta) count(k string)        { m.Dist[k]++ }
+
+// watchdog: an operation of the implementation that does not return is itself a finding
+// (deadlock / livelock). The harness arms the watchdog around every call into /repo.
+var (
+	curMeta   *meta
+	curOut    string
+	curFocus  string
+	wdMu      sync.Mutex
+	wdArmed   time.Time
+	wdWhat    string
+	wdStarted bool
+)
+
+func watch(what string) {
+	wdMu.Lock()
+	wdArmed, wdWhat = time.Now(), what
+	if !wdStarted {
+		wdStarted = true
+		go func() {
+			for {
+				time.Sleep(200 * time.Millisecond)
+				wdMu.Lock()
+				armed, w := wdArmed, wdWhat
+				wdMu.Unlock()
+				if !armed.IsZero() && time.Since(armed) > 15*time.Second {
+					prop := curFocus
+					if prop == "" {
+						prop = "C07"
+					}
+					if curMeta != nil {
+						curMeta.violate(prop, "the implementation did not return from "+w+" within 15 s (deadlock or livelock)", w)
+						if curFocus == "" {
+							for _, p := range []string{"C01", "C03", "C05", "C06", "C09", "C10", "C12"} {
+								curMeta.violate(p, "the implementation did not return from "+w+" within 15 s (deadlock or livelock)", w)
+							}
+						}
+						curMeta.write(curOut)
+					}
+					os.Exit(0)
+				}
+			}
+		}()
+	}
+	wdMu.Unlock()
+}
+
+func unwatch() {
+	wdMu.Lock()
+	wdArmed = time.Time{}
+	wdMu.Unlock()
+}
+func (m *meta) count(k string)           { m.Dist[k]++ }
 func (m *meta) countN(k string, n int64) { m.Dist[k] += n }
 func (m *meta) nontrivial(sig string) {
 	if !m.distinct[sig] {
@@ -148,6 +203,7 @@ type opts struct {
 	out    string
 	tier   string
 	replay string
+	focus  string
 }
 
 func parseOpts(args []string) opts {
@@ -158,7 +214,9 @@ func parseOpts(args []string) opts {
 	fs.StringVar(&o.out, "out", "out", "output directory")
 	fs.StringVar(&o.tier, "tier", "quick", "quick|thorough")
 	fs.StringVar(&o.replay, "replay", "", "replay file")
+	fs.StringVar(&o.focus, "focus", "", "property whose monitors are reported (empty: all)")
 	must(fs.Parse(args))
+	curOut, curFocus = o.out, o.focus
 	return o
 }
 
